@@ -34,6 +34,7 @@ func init() {
 		Stub:           []string{"kernel sockets and the three accept loops; net/http's own connection handling (which would swallow a handler panic) - handlers are called with a recover wrapper that is the panic witness", "NASA / WattTime services: unreachable (connection refused) in this flavour"},
 		Assumptions:    []string{"GCA-signed authorizations never assign one public key to two live ids", "responses of the external NASA / WattTime services are not part of the untrusted inputs the property lists"},
 		RequiredProbes: []string{"c12.stalled-late", "c12.catchup-traffic", "c12.idle-conn-at-close", "c12.peer-fault", "c12.http.hostile", "c12.tcp.partial", "c12.datagram.window-end", "c12.signed-extreme"},
+		RequiredSites:  []string{"migrate.catchup", "listen.udp", "sync.between"},
 	})
 }
 
